@@ -3,7 +3,8 @@ from pyvc.contracts import Contract, ClassSpec, LoopSpec
 
 
 from .shapes import (PAIR_TYPES, LEVEL_TYPES, WORK_PAIR, WORK_SCALAR, DISK_SCALAR, RAM_SCALAR,  # noqa: F401
-                     SCALAR_TYPES, KNOWN_TYPES, WRITE_TYPES, SHAPE, LIST_SHAPE, one_of)
+                     SCALAR_TYPES, KNOWN_TYPES, WRITE_TYPES, SHAPE, LIST_SHAPE, LIST_SHAPE_WRITES,
+                     CHECKPOINT_WRITES, one_of)
 
 
 def register(reg):
@@ -18,6 +19,17 @@ def register_iterator(reg):
     InvalidForwardStep / InvalidActionIndex / InvalidReverseStep / InvalidRevolverAction /
     RuntimeError, the KeyError of snapshots.remove and the IndexError of the look-ahead at i + 3)."""
     PREV = "self._schedule[i - 1]"
+    COSTS = "C_UF, C_UB, C_WD, C_RD"
+    for cname in ("C_UF", "C_UB", "C_WD", "C_RD"):
+        reg.spec_constant(cname, "real")
+    # OPSUM(k, costs): cost of the first k operations of self._schedule (defined relative to the
+    # list the iterator works on, which it never assigns)
+    reg.spec_function("OPSUM", ["int", "real", "real", "real", "real"], "real")
+    OPSUM_DEF = [
+        ("opsum_of_nothing", "OPSUM(0, %s) == 0" % COSTS),
+        ("opsum_adds_the_next_operation",
+         "forall(1, len(self._schedule) + 1, lambda k: OPSUM(k, %s) == OPSUM(k - 1, %s) + "
+         "op_cost(self._schedule[k - 1], %s))" % (COSTS, COSTS, COSTS))]
     INV = [
         ("index", "0 <= i and i <= len(self._schedule)"),
         ("offline", "self._max_n is not None and self._max_n == g.N and not g.done and not self._exhausted"),
@@ -30,6 +42,9 @@ def register_iterator(reg):
          "implies(i >= 1 and %s.type == 'Write_Forward', %s.index[1] == self._n + 1) and "
          "implies(i >= 1 and %s.type == 'Write_Forward_memory', scalar(%s.index) == self._n + 1)"
          % (PREV, PREV, PREV, PREV)),
+        # a checkpoint write is paid for by the Forward that follows it
+        ("cost_so_far", "g.cost + (op_cost(%s, %s) if (i >= 1 and %s) else 0) == OPSUM(i, %s)"
+         % (PREV, COSTS, one_of(PREV + ".type", CHECKPOINT_WRITES), COSTS)),
     ]
     reg.add(Contract(
         "hrevolve.RevolveCheckpointSchedule._iterator", self_class="RevolveCheckpointSchedule",
@@ -38,8 +53,12 @@ def register_iterator(reg):
                   ("not_exhausted", "not self._exhausted"),
                   # assumption on the list built by the sequence functions (validated at run time):
                   # the iterator looks at schedule[i - 1], i.e. at the last operation when i == 0
-                  ("list_does_not_end_with_a_write", LIST_SHAPE.replace("schedule", "self._schedule"))],
-        frame=["_n", "_r", "_exhausted"], props=("C01", "C02", "C03", "C04", "C08", "C09", "C11", "C12", "C18"),
+                  ("list_does_not_end_with_a_write", LIST_SHAPE.replace("schedule", "self._schedule")),
+                  ("every_checkpoint_write_is_followed_by_a_forward",
+                   LIST_SHAPE_WRITES.replace("schedule", "self._schedule"))],
+        definitions=OPSUM_DEF,
+        frame=["_n", "_r", "_exhausted"],
+        props=("C01", "C02", "C03", "C04", "C07", "C08", "C09", "C11", "C12", "C18", "C19"),
         total=False, implicit_guards=("remove_key_present", "index_in_range"),
         exc_props={"*": ("C17", "C01", "C02")},
         locals={"w_n0": "int", "w_storage": ("opt", "storage"), "w_cp_action": "str",
